@@ -295,3 +295,155 @@ ISNULL JOIN LEFT LIKE NATURAL NOTNULL OUTER OVERLAPS RIGHT SIMILAR TABLESAMPLE V
 PG_DOC_KEYWORDS = PG_DOC_RESERVED + PG_DOC_TYPE_FUNC
 # the words of PG_DOC_KEYWORDS known to be missing from postgresql RESERVED_WORDS (finding)
 PG_GAP = ["collation", "concurrently", "lateral", "system_user", "tablesample"]
+
+
+# ------------------------------------------------------------------ literal rendering (C05)
+def interp_value_fn(fn_node, env, valn):
+    """Interpret a tiny function body operating on one string variable `valn`:
+        valn = valn.replace(A, B)[.replace…]
+        valn = super().<anything>(valn, …)          (identity: the inherited rendering)
+        if <attr chain | issubclass(type(valn), …)>: … [else: …]
+        return valn | valn.replace(…) | "pre%spost" % valn | super().<anything>(valn, …)
+    `env` maps root names (self, dialect) to live objects.  Returns (ops, pre, post)."""
+    ops = []
+    tmpl = ["", ""]
+
+    def const(node):
+        if isinstance(node, ast.Constant) and isinstance(node.value, str):
+            return node.value
+        return str_attr(node)
+
+    def attr_chain(node):
+        if isinstance(node, ast.Name) and node.id in env:
+            return env[node.id]
+        if isinstance(node, ast.Attribute):
+            return getattr(attr_chain(node.value), node.attr)
+        raise Untranslatable("expression " + ast.dump(node))
+
+    def str_attr(node):
+        v = attr_chain(node)
+        if isinstance(v, str):
+            return v
+        raise Untranslatable("not a string: " + ast.dump(node))
+
+    def is_super_call(node):
+        return (
+            isinstance(node, ast.Call)
+            and isinstance(node.func, ast.Attribute)
+            and isinstance(node.func.value, ast.Call)
+            and isinstance(node.func.value.func, ast.Name)
+            and node.func.value.func.id == "super"
+            and node.args
+            and isinstance(node.args[0], ast.Name)
+            and node.args[0].id == valn
+        )
+
+    def chain(node):
+        if isinstance(node, ast.Name) and node.id == valn:
+            return []
+        if is_super_call(node):
+            return []
+        if (
+            isinstance(node, ast.Call)
+            and isinstance(node.func, ast.Attribute)
+            and node.func.attr == "replace"
+            and len(node.args) == 2
+            and not node.keywords
+        ):
+            return chain(node.func.value) + [(const(node.args[0]), const(node.args[1]))]
+        raise Untranslatable("expression " + ast.dump(node))
+
+    def test(node):
+        if isinstance(node, ast.Call) and isinstance(node.func, ast.Name) and node.func.id == "issubclass":
+            return False  # the value is a str, never a date
+        return bool(attr_chain(node))
+
+    def stmts(body):
+        for st in body:
+            if isinstance(st, ast.Expr) and isinstance(st.value, ast.Constant):
+                continue
+            if isinstance(st, ast.Assign) and len(st.targets) == 1 and isinstance(st.targets[0], ast.Name) and st.targets[0].id == valn:
+                ops.extend(chain(st.value))
+            elif isinstance(st, ast.If):
+                if test(st.test):
+                    if stmts(st.body):
+                        return True
+                elif st.orelse and stmts(st.orelse):
+                    return True
+            elif isinstance(st, ast.Return):
+                v = st.value
+                if isinstance(v, ast.BinOp) and isinstance(v.op, ast.Mod) and isinstance(v.left, ast.Constant) and isinstance(v.left.value, str) and v.left.value.count("%s") == 1 and v.left.value.count("%") == 1:
+                    ops.extend(chain(v.right))
+                    tmpl[0], tmpl[1] = v.left.value.split("%s")
+                else:
+                    ops.extend(chain(v))
+                return True
+            else:
+                raise Untranslatable("statement " + ast.dump(st))
+        return False
+
+    if not stmts(fn_node.body):
+        raise Untranslatable("no return")
+    for a, b in ops:
+        if not a:
+            raise Untranslatable("empty pattern")
+    return ops, tmpl[0], tmpl[1]
+
+
+def _method_node(cls, name):
+    fn = getattr(cls, name)
+    src = textwrap.dedent(inspect.getsource(fn))
+    node = ast.parse(src).body[0]
+    assert isinstance(node, ast.FunctionDef)
+    return node
+
+
+def literal_configs():
+    """name -> (dialect, string type instance): every string-literal configuration"""
+    from sqlalchemy import String, Unicode
+    from sqlalchemy.dialects import mysql, postgresql
+
+    ds = dialects()
+    pg_bs = postgresql.dialect()
+    pg_bs._backslash_escapes = True  # standard_conforming_strings = off
+    my_nobs = mysql.dialect()
+    my_nobs._backslash_escapes = False  # sql_mode NO_BACKSLASH_ESCAPES
+    return {
+        "default": (ds["default"], String()),
+        "sqlite": (ds["sqlite"], String()),
+        "postgresql": (ds["postgresql"], String()),
+        "postgresqlbs": (pg_bs, String()),
+        "pgasyncpg": (ds["pgasyncpg"], String()),
+        "mysql": (ds["mysql"], String()),
+        "mysqlnobs": (my_nobs, String()),
+        "mariadb": (ds["mariadb"], String()),
+        "mssql": (ds["mssql"], String()),
+        "mssqln": (ds["mssql"], Unicode()),
+        "oracle": (ds["oracle"], String()),
+    }
+
+
+def literal_tables(dialect, type_):
+    """Transcribe the string literal path for (dialect, type) from the working tree."""
+    impl = type_.dialect_impl(dialect)
+    node = _method_node(type(impl), "literal_processor")
+    inner = [n for n in node.body if isinstance(n, ast.FunctionDef)]
+    if len(inner) != 1 or len(inner[0].args.args) != 1:
+        raise Untranslatable("literal_processor of %s has no single inner process(value)" % type(impl).__name__)
+    dn = [a.arg for a in node.args.args][1]
+    str_ops, pre, post = interp_value_fn(inner[0], {"self": impl, dn: dialect}, inner[0].args.args[0].arg)
+    comp = dialect.statement_compiler(dialect, None)
+    cnode = _method_node(type(comp), "render_literal_value")
+    from sqlalchemy.sql.compiler import SQLCompiler
+
+    if getattr(type(comp), "render_literal_value") is SQLCompiler.render_literal_value:
+        outer = []
+    else:
+        args = [a.arg for a in cnode.args.args]
+        outer, p2, q2 = interp_value_fn(cnode, {args[0]: comp}, args[1])
+        if p2 or q2:
+            raise Untranslatable("render_literal_value override wraps the value")
+    return {
+        "strOps": str_ops, "pre": pre, "post": post, "outerOps": outer,
+        "true": comp.visit_true(None), "false": comp.visit_false(None), "null": comp.visit_null(None),
+    }
